@@ -521,3 +521,48 @@ _units_init = units
 def units(tier):   # noqa: F811
     l5_guard()
     return _units_init(tier)
+
+
+def toplevel_units():
+    """persistence_on_rectangle_from_top_cells: the orchestration - size check, then init, fill_and_pair, sort_edges,
+    primal (dimension 0 to out0), dual (dimension 1 to out1), and the global minimum is what is returned.  The member
+    functions are recording stubs here (each has its own units)."""
+    G = """
+typedef size_t Index; typedef int Filtration_value;
+int g_seq[8]; int g_nseq; const Filtration_value* g_init_in; Index g_init_r, g_init_c; int g_primal_out, g_dual_out; Filtration_value g_global_min;
+enum { S_INIT = 1, S_FILL, S_SORT, S_PRIMAL, S_DUAL };
+#define LOG(s) do { if (g_nseq < 8) g_seq[g_nseq] = (s); g_nseq++; } while (0)
+/* ghost object X of the class: recording stubs (R13) */
+#define X_init(in, r, c) do { LOG(S_INIT); g_init_in = (in); g_init_r = (r); g_init_c = (c); } while (0)
+#define X_fill_and_pair() LOG(S_FILL)
+#define X_sort_edges() LOG(S_SORT)
+#define X_primal(o) do { LOG(S_PRIMAL); g_primal_out = (o); } while (0)
+#define X_dual(o) do { LOG(S_DUAL); g_dual_out = (o); } while (0)
+size_t nondet_size(void); int nondet_int(void);
+"""
+    con = """
+__CPROVER_requires(g_nseq == 0 && g_thrown == 0 && n_rows >= 2 && n_cols >= 2)
+__CPROVER_ensures(g_thrown == 0)
+__CPROVER_ensures(g_thrown != 0 || (g_nseq == 5 && g_seq[0] == S_INIT && g_seq[1] == S_FILL && g_seq[2] == S_SORT && g_seq[3] == S_PRIMAL && g_seq[4] == S_DUAL))
+__CPROVER_ensures(g_thrown != 0 || (g_init_in == input && g_init_r == n_rows && g_init_c == n_cols && g_primal_out == out0 && g_dual_out == out1))
+__CPROVER_ensures(g_thrown != 0 || __CPROVER_return_value == g_global_min)
+__CPROVER_assigns(g_seq, g_nseq, g_init_in, g_init_r, g_init_c, g_primal_out, g_dual_out, g_thrown)
+"""
+    fn = Fn(R, r"auto persistence_on_rectangle_from_top_cells\(Filtration_value const\* input, Index n_rows, Index n_cols,\s*Out0&&out0, Out1&&out1\)", "top_cells", con,
+            sig_subs=[(r"^auto ", "Filtration_value "), (r"Out0&&out0, Out1&&out1", "int out0, int out1")],
+            subs=[(r"Persistence_on_rectangle<Filtration_value, Index, output_index> X;", ""), (r"X\.(\w+)\(", r"X_\1("), (r"X\.global_min", "g_global_min"),
+                  (r"GUDHI_CHECK\(", "VP_CHECK_THROW(", 0)],
+            canary=(r"X_primal\(out0\)", "X_primal(out1)"))
+    # GUDHI_CHECK(c, exception) throws in debug builds: model the refusal as the ghost throw flag
+    G += "#define VP_CHECK_THROW(c, e) do { if (!(c)) { g_thrown = 1; return 0; } } while (0)\n#define std_domain_error(x) 0\n"
+    fn.subs.insert(0, (r"std::domain_error\([^)]*\)", "0", 0))
+    return [Unit("rect.top_level", "C14", [fn], enforce="top_cells", globals_=G, inputs=["in_r", "in_c"],
+                 harness=H("  Index in_r = nondet_size(), in_c = nondet_size(); Filtration_value buf[4]; g_nseq = 0; g_thrown = 0; g_global_min = nondet_int();", "top_cells(buf, in_r, in_c, 10, 11);"),
+                 desc="persistence_on_rectangle_from_top_cells, for every accepted size (both sides >= 2; the GUDHI_CHECK on the sizes becomes a proof obligation): init, fill_and_pair, sort_edges, primal(out0), dual(out1) in this order and the global minimum is returned")]
+
+
+_units_l5 = units
+
+
+def units(tier):   # noqa: F811
+    return _units_l5(tier) + toplevel_units()
